@@ -583,10 +583,15 @@ pub fn gen_struct(rng: &mut Rng, class: Class) -> Item {
         }
         let extra = { let n = rng.range(2, 4); pick_distinct(rng, &["R1", "R2", "R3", "R4"], n) };
         for (i, cp) in extra.iter().enumerate() {
-            let p = match (i, rng.below(3)) {
+            let p = match (i, rng.below(4)) {
+                // (templates carry one to three vars; a follower may bring vars of its own, named
+                // differently or alike, with or without skip_repeat)
+                (0, 0) => "| repeat(), vars(k: { 1 }, k2: { 2 }, k3: { k + k2 }), ..Default::default()".to_string(),
+                (0, 1) => "| repeat(), vars(k: { 1 }, k2: { 2 }), ..Default::default()".to_string(),
                 (0, _) => "| repeat(), vars(k: { 1 }), ..Default::default()".to_string(),
                 (_, 0) => "| skip_repeat, vars(z: { 2 })".to_string(),
                 (_, 1) => "| stop_repeat".to_string(),
+                (_, 2) => rng.pick(&["| vars(own: { 3 })", "| vars(own: { 3 }, own2: { 4 })", "| vars(k: { 9 })"]).to_string(),
                 _ => String::new(),
             };
             fallible_any |= is_fallible(instr);
